@@ -82,7 +82,8 @@ Definition run_moving (ints rad coe ang fl chk smp tg hv : sx) : sx :=
                   p_checkers := checkers |} in
       let tab := combine (map (fun s => let inc := tincr p t s in (nthQ inc 0, nthQ inc 1)) samples) sectors in
       let oracle := mk_oracle tab in
-      let res := if nz useball then moving_ball_x oracle p t xsamples ellig else moving_x oracle p t xsamples in
+      let res := moving_fixed_x oracle (nz useball) p t xsamples ellig in
+      let taken := ball_taken (nz useball) p xsamples ellig in
       let spec := spec_moving_x oracle p t xsamples in
       let cands := sort_cands (cand_loop_x oracle p t (enum xsamples)) in
       let dsamples := map snd (filter (fun bs => fst bs) (combine cdef samples)) in
@@ -99,12 +100,12 @@ Definition run_moving (ints rad coe ang fl chk smp tg hv : sx) : sx :=
       L [I (r_code res); ofList ofNat (r_ranks res); ofList ofNat spec;
          L [ofOQ gap; ofOQ radm; ofB radeq; ofNat nbound; ofB xvm];
          L [ofNat (length cands); ofList ofNat (map c_idx (map fst (filter (fun ca => snd ca) (r_sorted res)))); ofList ofQ d2s; ofQ m;
-            ofQ (maxQ (map c_d2 (if nz useball then cand_loop_ball_x oracle p t (map (fun i => (i, nth i xsamples dummy_xsample)) ellig) else cand_loop_x oracle p t (enum xsamples))))];
+            ofQ (maxQ (map c_d2 (if taken then cand_loop_ball_x oracle p t (map (fun i => (i, nth i xsamples dummy_xsample)) ellig) else cand_loop_x oracle p t (enum xsamples))))];
          (let ofSum sm := L [ofNat (sm_number sm); ofOQ (sm_max2 sm); ofOQ (sm_min2 sm); ofNat (sm_nonempty sm); ofNat (sm_cempty sm)] in
-          let rawc := if nz useball then cand_loop_ball_x oracle p t (map (fun i => (i, nth i xsamples dummy_xsample)) ellig)
+          let rawc := if taken then cand_loop_ball_x oracle p t (map (fun i => (i, nth i xsamples dummy_xsample)) ellig)
                       else cand_loop_x oracle p t (enum xsamples) in
           L [ofSum (moving_summary p (if (Z.of_nat (length xsamples) <? p_nmini p)%Z then [] else rawc) res);
-             ofSum (summary_spec (p_nsect p) (r_sorted res))])]
+             ofSum (summary_spec (p_nsect p) (r_sorted res)); ofB taken])]
   | _, _, _, _, _, _, _, _ => sx_error 1
   end.
 
